@@ -30,6 +30,7 @@ COUNT = {"quick": 5000, "thorough": None}
 BUDGET = {"quick": 45, "thorough": 600}
 CHUNK = 4000
 RULE = (
+    'The settings objects shared by two steps now cover every configuration part that has a class of its own. '
     "index%5 in 0..2: plan path with the scripted back-end (requests = user-domain pool points, issued as optimizer-domain "
     "images in the transformed run); index%5==3: BasicOptimizer(dict, transforms=T); index%5==4: BasicOptimizer(validated, "
     "transforms=T) - both with real SLSQP/Nelder-Mead, compared on the first evaluation (same starting point). Transforms: any "
